@@ -71,12 +71,17 @@ KdMechRefinesProp ==
   pts = <<>> \/ \A arr \in Perms(PointSet) : TreeOK(arr, 1, Len(arr), 1) =>
                     \A q \in Queries : MechNearest2(arr, q) = PropNearest2(PointSet, q)
 
-UnitM == 5 * Km
-KdBehaviour ==
+(* The statement is scale-free, the code must be too: every point set is replayed at four lattice units -- 5 km, 1,
+   1/8 and 2^-10 (powers of two, so the scaled coordinates and squared distances stay exact); below unit spacing a
+   distance is larger than its square, which is where a comparison that mixes the two goes wrong. *)
+Units == <<5 * Km, 1, Dec(125, -3), Dec(9765625, -10)>>
+KdStep(u) ==
   LET qs == SetToSeq(Queries) IN
+  [op |-> "kdtree", points |-> [i \in 1..Len(pts) |-> <<Mul(pts[i][1], u), Mul(pts[i][2], u)>>],
+   queries |-> [i \in 1..Len(qs) |-> <<Mul(qs[i][1], u), Mul(qs[i][2], u), Mul(Mul(PropNearest2(PointSet, qs[i]), u), u)>>]]
+KdBehaviour ==
   [id |-> <<"kdtree", pts>>, labels |-> <<"kdtree", "n" \o ToString(Len(pts))>>,
-   steps |-> <<[op |-> "kdtree", points |-> [i \in 1..Len(pts) |-> <<pts[i][1] * UnitM, pts[i][2] * UnitM>>],
-                queries |-> [i \in 1..Len(qs) |-> <<qs[i][1] * UnitM, qs[i][2] * UnitM, Mul(Mul(PropNearest2(PointSet, qs[i]), UnitM), UnitM)>>]]>>]
+   steps |-> [k \in 1..Len(Units) |-> KdStep(Units[k])]]
 EmitKd == pts = <<>> \/ PrintT(<<"B", ToJson(KdBehaviour)>>)
 
 (*************************** great circle **********************************)
